@@ -122,6 +122,8 @@ pub fn triggers(src: &str, root: &SyntaxNode) -> Vec<&'static str> {
                     add("R11");
                 }
             }
+            // R11 (attachment form): `\` as the base of an attachment / fraction, where blanks are dropped
+            K::Linebreak if in_math[i] && matches!(f.parent, Some(K::MathAttach | K::MathFrac | K::MathRoot)) => add("R11"),
             K::Linebreak if in_math[i] => {
                 let next = leaves[li + 1..].iter().map(|&j| &flat[j]).find(|g| g.node.kind() != K::Space);
                 if let Some(n) = next {
@@ -389,6 +391,26 @@ pub fn triggers(src: &str, root: &SyntaxNode) -> Vec<&'static str> {
                 if n_items == 0 || last_is_comment || any_comment {
                     add("R26");
                 }
+            }
+            // R60: a run of several blanks inside a heading / item body is collapsed to one; Typst
+            // lexes the following text differently then (`=== ,  1...1`: `1...1` is text after two
+            // blanks, `1` `...` `1` after one)
+            K::Markup if matches!(f.parent, Some(K::Heading | K::ListItem | K::EnumItem | K::TermItem)) && {
+                let kids: Vec<&SyntaxNode> = f.node.children().collect();
+                kids.windows(2).any(|w| {
+                    w[0].kind() == K::Space && !syn::has_nl(w[0].text()) && w[0].text().chars().count() >= 2
+                        && w[1].kind() == K::Text && w[1].text().chars().next().is_some_and(|c| c.is_ascii_digit())
+                })
+            } => add("R60"),
+            // R61: redundant parentheses around an array on the left of `=`: removing them turns the
+            // assignment into a destructuring assignment (`(((a),)) = b` -> `((a),) = b`)
+            K::Binary
+                if f.node.children().any(|c| matches!(c.kind(), K::Eq))
+                    && f.node.children().next().is_some_and(|l| {
+                        l.kind() == K::Parenthesized && syn::any_node(l, &mut |x| matches!(x.kind(), K::Array | K::Dict))
+                    }) =>
+            {
+                add("R61")
             }
             // R12: a comment directly inside a heading (between marker and body)
             K::Heading
